@@ -81,4 +81,27 @@ example : (parseOf (B " a.b [ OFFSET ( 1 ) ] - -1 IS NOT NULL")).isSome = true ‚
   have := (expr_positions h1 h2).2 n hn
   exact ‚ü®this.2.1, this.2.2.1, this.2.2.2.1, this.2.2.2.2‚ü©
 
+/-! the repaired subscript (Task R1): a column named like a position keyword is an `ExprArg` over an ordinary
+expression (`Ident` / `BinaryExpr` / `Path`), the keyword form is a `SubscriptSpecifierKeyword` whose `KeywordPos` is the
+word and whose `Rparen` is the `)` ‚Äî also when blanks separate the word from its `(` -/
+
+example : exprPosRun (B "a[offset]") =
+    "OK (index (ident 61) (expr (ident 6f6666736574))) 0:IndexExpr:0:9:Rbrack=8 1:Ident:0:1:NamePos=0,NameEnd=1 1:ExprArg:2:8:- 2:Ident:2:8:NamePos=2,NameEnd=8" := by
+  decide +kernel
+example : exprPosRun (B "a[ORDINAL * 2]") =
+    "OK (index (ident 61) (expr (bin * (ident 4f5244494e414c) (int 32)))) 0:IndexExpr:0:14:Rbrack=13 1:Ident:0:1:NamePos=0,NameEnd=1 1:ExprArg:2:13:- 2:BinaryExpr:2:13:- 3:Ident:2:9:NamePos=2,NameEnd=9 3:IntLiteral:12:13:ValuePos=12,ValueEnd=13" := by
+  decide +kernel
+example : exprPosRun (B "a[offset.f]") =
+    "OK (index (ident 61) (expr (path 6f6666736574 66))) 0:IndexExpr:0:11:Rbrack=10 1:Ident:0:1:NamePos=0,NameEnd=1 1:ExprArg:2:10:- 2:Path:2:10:- 3:Ident:2:8:NamePos=2,NameEnd=8 3:Ident:9:10:NamePos=9,NameEnd=10" := by
+  decide +kernel
+example : exprPosRun (B "a[safe_offset]") =
+    "OK (index (ident 61) (expr (ident 736166655f6f6666736574))) 0:IndexExpr:0:14:Rbrack=13 1:Ident:0:1:NamePos=0,NameEnd=1 1:ExprArg:2:13:- 2:Ident:2:13:NamePos=2,NameEnd=13" := by
+  decide +kernel
+example : exprPosRun (B "a[OFFSET(1)]") =
+    "OK (index (ident 61) (OFFSET (int 31))) 0:IndexExpr:0:12:Rbrack=11 1:Ident:0:1:NamePos=0,NameEnd=1 1:SubscriptSpecifierKeyword:2:11:KeywordPos=2,Rparen=10 2:IntLiteral:9:10:ValuePos=9,ValueEnd=10" := by
+  decide +kernel
+example : exprPosRun (B "a[offset (1)]") =
+    "OK (index (ident 61) (OFFSET (int 31))) 0:IndexExpr:0:13:Rbrack=12 1:Ident:0:1:NamePos=0,NameEnd=1 1:SubscriptSpecifierKeyword:2:12:KeywordPos=2,Rparen=11 2:IntLiteral:10:11:ValuePos=10,ValueEnd=11" := by
+  decide +kernel
+
 end MF.Props.C05
